@@ -1,7 +1,7 @@
 """
 Independently seeded property-breaking changes (written by sub-agents that saw only the property text).
 
-  python -m pbt.seeded validate <ID> <dir-with-patch.diff,demo.py,meta.json> [--name NAME]
+  python -m pbt.seeded validate <ID> <dir-with-patch.diff,demo.py,meta.json> [--name=NAME]
         confirms on scratch copies of /repo: the patch applies, the repository's own test-suite passes with it,
         the demonstration fails with the patch and passes without; then stores it as seeded/<NAME>/.
   python -m pbt.seeded run [NAME ...] [--tier quick] [--all-checks]
